@@ -12,7 +12,7 @@ REQUIRED_MONITORS = ["explicit-order@SSI_mpe", "explicit-order@pLSCF_mpe", "find
 ALL_STATES = ["order:int", "order:list", "mode missing at the order", "nearest pole belongs to another requested mode", "all found", "none found",
               "with covariances", "find_min: qualifying order exists", "find_min: two stable poles in one band at a lower order",
               "find_min: f>1Hz pole between absolute and relative band", "f<1Hz requests"]
-REQUIRED_STATES = ["whole-number requests of integer type", "class configured with ordmin > 0", "class-level extraction: empty pole slot above the selected poles", "find_min: unstable pole nearer to the request than the stable one",
+REQUIRED_STATES = ["order 0 requested as a single integer, column 0 holds the pole", "whole-number requests of integer type", "class configured with ordmin > 0", "class-level extraction: empty pole slot above the selected poles", "find_min: unstable pole nearer to the request than the stable one",
                    "nearest pole in an rtol^2 sliver at a band edge", "two retained poles in the band, the farther one in an earlier row", "successive mpe calls with different rtol", "order:int", "order:list", "mode missing at the order", "nearest pole belongs to another requested mode", "with covariances",
                    "find_min: qualifying order exists", "find_min: two stable poles in one band at a lower order",
                    "find_min: f>1Hz pole between absolute and relative band"]
@@ -185,6 +185,18 @@ def run_explicit(ctx, rng):
         order_arg = list(orders)
     else:
         o = int(rng.choice(valid))
+        if rng.random() < 0.2:
+            # the first column is an order like any other (pLSCF: polynomial order 1): order=0 asks for that column
+            o = 0
+            r0 = int(rng.integers(0, Fn.shape[0]))
+            Fn[r0, 0] = req[0] * (1 + 0.2 * rtol * rng.uniform(-1, 1))
+            Xi[r0, 0] = 0.0123
+            Phi[r0, 0] = rng.standard_normal(Phi.shape[2]) + 1j * rng.standard_normal(Phi.shape[2])
+            for cv in covs:
+                cv[r0, 0] = 1e-3
+            owner[r0, 0] = pick[0]
+            present[pick[0], 0] = True
+            ctx.state("order 0 requested as a single integer, column 0 holds the pole")
         orders = [o] * len(req)
         order_arg = o
     with_cov = rng.random() < 0.5
@@ -224,13 +236,14 @@ def run_explicit(ctx, rng):
             other = True
     # SSI
     kw = dict(Fn_cov=covs[0].copy(), Xi_cov=covs[1].copy(), Phi_cov=covs[2].copy()) if with_cov else {}
-    ret = ssi.SSI_mpe(list(req_arg if req_arg is not None else req), Fn, Xi, Phi, order_arg, Lab=None, rtol=rtol, **kw)
+    lab_arg = None if rng.random() < 0.5 else Lab.copy()  # an explicit order does not consult the labels, given or not
+    ret = ssi.SSI_mpe(list(req_arg if req_arg is not None else req), Fn, Xi, Phi, order_arg, Lab=lab_arg, rtol=rtol, **kw)
     r1 = judge_explicit(ctx, "explicit-order@SSI_mpe", "ssi_explicit", req, orders, order_arg, rtol, tabs, covs if with_cov else None, ret)
     if rng.random() < 0.4:
         t3, c3, ret3 = through_class(ctx, rng, "explicit-order@SSIcov.mpe(synthetic tables)", "ssi_cls_synth", req, orders, order_arg, rtol, Fn, Xi, Phi, Lab, covs)
         judge_explicit(ctx, "explicit-order@SSIcov.mpe(synthetic tables)", "ssi_cls_synth_explicit", req, orders, order_arg, rtol, t3, c3, ret3)
     # pLSCF
-    ret2 = plscf.pLSCF_mpe(list(req_arg if req_arg is not None else req), Fn, Xi, Phi, order_arg, Lab=None, rtol=rtol)
+    ret2 = plscf.pLSCF_mpe(list(req_arg if req_arg is not None else req), Fn, Xi, Phi, order_arg, Lab=lab_arg, rtol=rtol)
     r2 = judge_explicit(ctx, "explicit-order@pLSCF_mpe", "plscf_explicit", req, orders, order_arg, rtol, tabs, None, tuple(ret2) + (None, None, None))
     ctx.check(all(np.array_equal(a, b, equal_nan=True) for a, b in zip((Fn, Xi, Phi), tabs)), "tables_modified", "extraction modified the pole tables")
     if r1 is None and r2 is None:
